@@ -478,3 +478,14 @@ Definition R_group := group_chunks R R Rplus Rmult 0 Rmax (fun a b => pow10 (a -
 (* the value denoted by a slice result: mantissa * 10^exponent *)
 Definition R_value (s : sval R R) : mant R :=
   match s with Plain m => m | Strip m e => R_mscale_r m (pow10 e) end.
+
+(* ---- executable judgement of a stripped result against a plain one (xq instance) ---- *)
+Definition x_nonzero_finite (v : xq) : bool :=
+  match v with XF a => negb (Qeq_bool a 0) | _ => false end.
+Definition x_finite (v : xq) : bool := match v with XF _ => true | _ => false end.
+(* mantissa * 10^exponent == plain result, entry by entry (exponent in antilog form) *)
+Definition x_value_ok (plain stripped : sval xq xq) : bool :=
+  match plain, stripped with
+  | Plain (MArr r), Strip (MArr m) e => eqb (map (fun v => xmul v e) m) r
+  | _, _ => false
+  end.
